@@ -844,6 +844,11 @@ func (db *ContractDB) ParseContractFile(fset *token.FileSet, f *ast.File, pkgPat
 				key = pkgName + "." + key
 			} else if !strings.Contains(key, "/") && fc.Assume && !strings.Contains(strings.TrimLeft(key, "(*"), ".") {
 				key = pkgName + "." + key
+			} else if !strings.Contains(key, "/") && fc.Assume && !fc.Iface && strings.HasPrefix(key, "(") {
+				// method of a type of this package: (*T).M / (T).M with an unqualified T
+				if cp := strings.Index(key, ")"); cp > 0 && !strings.Contains(key[:cp], ".") {
+					key = pkgName + "." + key
+				}
 			}
 			fc.Key = key
 			if _, dup := db.Funcs[key]; dup {
